@@ -74,7 +74,9 @@ def _gen(g):
         if any(m == 1 for m in case["max"]["a"] + case["max"]["b"]):
             case["msgs"] = {"a": msgs(3, [1, 2, 100, 4096]), "b": msgs(3, [1, 2, 100, 4096])}
     elif scenario == "latereader":
-        case["msgs"] = {"a": msgs(6, [65536, 200000, 1 << 20, 3 << 20]), "b": []}
+        # many medium-sized messages: progress of the writer is observable per completed send()
+        size = g.choice([65536, 200000, 200000, 1 << 20])
+        case["msgs"] = {"a": [size] * g.int(4, 40 if size < (1 << 20) else 12), "b": []}
         case["bufs"] = g.choice([16384, 65536, None])
         case["max"]["b"] = [g.choice([1000, 65536, 1 << 20])]
         case["first_read"] = g.bool()      # the reader receives one chunk, then stalls
@@ -285,7 +287,7 @@ async def scenario_latereader(case, out, stats, w, r):
             pre = len(chunk)
             stats["stall_after_first_receive"] += 1
         last, still = -1, 0
-        while not finished.is_set() and still < 5:
+        while not finished.is_set() and still < 8:
             await anyio.sleep(0.05)
             if prog["w"] == last:
                 still += 1
